@@ -115,6 +115,12 @@ class C05(flow.Spec):
                         ops.append("D %d 0 %d %d %d %s" % (v, last, last, last + 1, " ".join(map(str, range(last + 1))))); tags.add("completed-later")
                     if rnd.random() < 0.3:
                         ops.append("A %d" % v)
+            if rnd.random() < 0.6:
+                # another actor has versions with the same numbers (versions are per actor)
+                for v in rnd.sample(range(1, hi + 1), rnd.randrange(1, min(4, hi) + 1)):
+                    k = rnd.randrange(1, 4)
+                    ops.append("O %d %d %s" % (v, k, " ".join(map(str, rnd.sample(range(1, 8), k)))))
+                tags.add("other-actor-same-version-numbers")
             if rnd.random() < 0.5:
                 # interleave the versions' operations, keeping each version's own order
                 groups = {}
